@@ -481,6 +481,8 @@ class SymArray:
     def __array_ufunc__(self, ufunc, method, *inputs, **kw):
         out = kw.pop("out", None)
         where = kw.pop("where", True)
+        if ufunc is np.matmul and method == "__call__":
+            return _matmul(*inputs)
         if method == "reduce":
             return _reduce(ufunc, inputs[0], **kw)
         if method == "at" or method != "__call__":
